@@ -17,7 +17,7 @@ impl Encoder {
             }
 
             let recursion = *recursion;
-            if recursion > DOMAIN_NAME_MAX_RECURSION {
+            if recursion >= DOMAIN_NAME_MAX_RECURSION {
                 return Ok(None);
             }
 
